@@ -6,6 +6,8 @@ CONSTANTS
   SmallTags = 3
   KeyMode = "term_value"
   HashMode = "code"
+  NearPairs = TRUE
+  WideProv = TRUE
 CONSTRAINT Export
 INVARIANT ImplEncoder
 INVARIANT ImplClassify
